@@ -28,8 +28,8 @@ func init() {
 			"Routes: the governance execution path (ValidateBasic + registered handler on a branched context) and real signed DeliverTx from non-authority signers (authority = the signer; authority = gov but signed by somebody else). " +
 			"Oracle after every message: a non-governance message changes nothing (full snapshot); a rejected message leaves the raw params bytes of all three modules untouched; the stored params decode and pass the module's own Validate(); minter params contain the current MinterState.SequenceId; the vesting denom never changes while pools exist. " +
 			"Non-trivial: >=1 accepted and >=1 rejected governance update and >=1 non-governance attempt that reached DeliverTx. Distinct by sequence hash.",
-		Cases:         func(t string) int { return tierN(t, 96, 8000) },
-		MinNontrivial: func(t string) int { return tierN(t, 40, 3000) },
+		Cases:         func(t string) int { return tierN(t, 384, 8000) },
+		MinNontrivial: func(t string) int { return tierN(t, 160, 3000) },
 		Run:           runC13,
 	})
 }
